@@ -176,7 +176,7 @@ def evaluate_matrix(at, k, cm, fit, ignore_four, lab=None, want_obs=False, prebu
                     known.append({"id": "F1", "junction": j, "interface": ii, "pair": [pair.real, pair.imag], "tangent": [exp.real, exp.imag]})
                 elif len(pts) < 3 and not straight:
                     known.append({"id": "F2", "junction": j, "interface": ii, "pair": [pair.real, pair.imag], "chord": [exp.real, exp.imag]})
-                elif d1 <= L1_TOL and fit == "dlite" and len(pts) >= 3 and not straight and turning < 0.1 and dA < 0.5 \
+                elif d1 <= L1_TOL and fit == "dlite" and len(pts) >= 3 and not straight and turning < 0.1 and dA < 0.08 \
                         and pairs.dlite_underconverged(pts, complex(xc, yc)):
                     # F22: construction is right (pair = tangent of the library's own centre) but leastsq stopped far from the optimum
                     known.append({"id": "F22", "junction": j, "interface": ii, "err": dA, "turning": turning, "npts": len(pts)})
